@@ -8,6 +8,7 @@ from vf.world.cmds import ROOT
 from vf.world.proj import Project
 
 META = {
+    "solver_reasoned": 'modification time of every file, start time of the run, finish time of every submitted job (linear constraints from the scheduler contract), time of the perturbation: all unbounded symbolic ints.',
     "real": ["gwf.plugins.run.run (body)", "gwf.plugins.status.status (body)", "gwf.scheduling.submit_workflow/schedule/should_run/submit_backend/get_status_map", "gwf.core.CachedFilesystem (real os.stat path over the VFS)",
              "gwf.core.Graph.from_targets", "gwf.core.FileSpecHashes", "gwf.backends.base.TrackingBackend", "gwf.backends.{slurm,sge,lsf,local} submit and state queries"],
     "stubs": ["VFS", "scheduler simulators / pool model; the *drain* between invocations plays the scheduler: every submitted job finishes successfully at a symbolic time f_j constrained only by the contract "
